@@ -1,0 +1,36 @@
+//go:build verif
+
+package p2p
+
+// Contracts for the deductive verifier in /verif (govc). Comments only; build tag "verif".
+
+// C19: contract on the declaration of the module's RPC API. Every method carries one of the four
+// permission levels and is at least as restricted as the policy below, which is written from the
+// property text (node identity, peers and peer management need admin). The table is closed: a method without a policy entry is an undischarged
+// obligation.
+//@ permtable API
+//@   property C19
+//@   closed
+//@   require Info admin
+//@   require Network admin
+//@   require Peers admin
+//@   require PeerInfo admin
+//@   require Connect admin
+//@   require ClosePeer admin
+//@   require Connectedness admin
+//@   require NATStatus admin
+//@   require BlockPeer admin
+//@   require UnblockPeer admin
+//@   require ListBlockedPeers admin
+//@   require Protect admin
+//@   require Unprotect admin
+//@   require IsProtected admin
+//@   require BandwidthStats admin
+//@   require BandwidthForPeer admin
+//@   require BandwidthForProtocol admin
+//@   require ResourceState admin
+//@   require PubSubPeers admin
+//@   require PubSubTopics admin
+//@   require Ping admin
+//@   require ConnectionState admin
+//@ end
